@@ -297,3 +297,44 @@ pub mod uf {
         [0; 20]
     }
 }
+
+/// Uninterpreted BEP42 prefix function `P(ip, r)` standing in for `id::id_prefix_ipv4` (CRC32C of
+/// the masked IP and r) in obligations that are about ordering / table structure, not about the
+/// CRC: a ghost table that answers a repeated (ip, r) with the recorded 3 bytes and a new one with
+/// the next pre-drawn 3 bytes.  Nothing is assumed about P beyond being a function (the real one
+/// depends only on ip & 0x030f3fff and r & 7; P may distinguish more inputs: an
+/// over-approximation).  C19.O3 / C19.O4 / C11.O1 bind the real function to the BEP42 reference.
+pub mod ufp {
+    pub const SLOTS: usize = 4;
+    pub static mut SET: [bool; SLOTS] = [false; SLOTS];
+    pub static mut IN_IP: [u32; SLOTS] = [0; SLOTS];
+    pub static mut IN_R: [u8; SLOTS] = [0; SLOTS];
+    pub static mut OUT: [[u8; 3]; SLOTS] = [[0; 3]; SLOTS];
+    pub fn arm(outs: [[u8; 3]; SLOTS]) {
+        unsafe { OUT = outs }
+    }
+    pub fn prefix(ip: std::net::Ipv4Addr, r: u8) -> [u8; 3] {
+        let ipn = u32::from_be_bytes(ip.octets());
+        unsafe {
+            let mut i = 0;
+            while i < SLOTS {
+                if SET[i] && IN_IP[i] == ipn && IN_R[i] == r {
+                    return OUT[i];
+                }
+                i += 1;
+            }
+            let mut i = 0;
+            while i < SLOTS {
+                if !SET[i] {
+                    SET[i] = true;
+                    IN_IP[i] = ipn;
+                    IN_R[i] = r;
+                    return OUT[i];
+                }
+                i += 1;
+            }
+        }
+        super::cut();
+        [0; 3]
+    }
+}
